@@ -264,17 +264,22 @@ def run_c08(prop, tier):
     res = _cond_validate(vh, cases, corrupt=cond_corrupt)
     import checks_api
     api = checks_api.cond_api(vh, tier)
-    allcases = [c for r in res for c in r["cases"]] + api["cases"]
-    verdict = findings.adjudicate(prop, allcases, lambda c: (checks_api.cond_api_confirm(vh)(c) if c["key"].get("via", "").startswith("api") else cond_confirm(vh)(c)))
+    import checks_apiops
+    ops_cases, ops_cov = checks_apiops.run_for(prop, tier, vh)
+    allcases = [c for r in res for c in r["cases"]] + api["cases"] + ops_cases
+    verdict = findings.adjudicate(prop, allcases, lambda c: (checks_apiops.confirm_fn(vh)(c) if "api_case" in c else
+                                                             checks_api.cond_api_confirm(vh)(c) if c["key"].get("via", "").startswith("api") else cond_confirm(vh)(c)))
     cov = {"states": sum(r["states"] for r in res) + api["states"], "transitions": sum(r["transitions"] for r in res) + api["transitions"],
            "traces_validated_against_impl": len(res) + api["traces"], "cases_enumerated": total, "cases_replayed": len(cases),
            "selections_validated": sum(r["events"] for r in res), "api_selections_validated": api["events"],
            "binding_selftest_rejected": all(r["selftest"] for r in res),
-           "samples": [r["sample"] for r in res[:2] if r["sample"]], "known_findings_seen": verdict["known"],
+           "samples": [r["sample"] for r in res[:2] if r["sample"]], "known_findings_seen": verdict["known"], "model_api": ops_cov,
            "rule": "TLC enumerates, per column kind, every (function, argument) with a table holding one row per value of the kind, all "
                    "ordered pairs of a 32-condition pool and 800 triples over a 4-row table; each case is evaluated by RowsByCondition under 7 "
                    "index configurations and by select in a transaction, for integer/string/uuid/real columns; TLC compares with Cond!Select; "
-                   "the conditional API (Where/WhereAll/WhereAny List and the operations they generate) is validated on a synchronised client"}
+                   "the conditional API (Where/WhereAll/WhereAny List and the operations they generate) is validated on a synchronised client; "
+                   "the calls of MC_Api (Where(models) by uuid, by first / second index, with unset fields; WhereAll / WhereAny) list exactly the rows "
+                   "Api!Meant gives"}
     write_evidence(prop, tier, "model_checking", cov, time.time() - t0, violations=len(verdict["violations"]),
                    assumptions=["column values instantiated from an integer universe per column type"])
     return verdict
